@@ -28,7 +28,8 @@ def execute(scn, rng):
 
 def plan(tier):
     q = tier == "quick"
-    return [("snap", 2500 if q else 60000), ("jitter", 1500 if q else 40000), ("sample", 64 if q else 1500)]
+    return [("snap", 2500 if q else 60000), ("jitter", 1500 if q else 40000), ("sample", 64 if q else 1500),
+            ("bigjitter", 4 if q else 40)]
 
 
 def sample(scn, out):
@@ -42,6 +43,12 @@ def sample(scn, out):
 
 def shrink_candidates(scn):
     import copy
+    if scn.get("big"):
+        for f in (2, 4):
+            s = copy.deepcopy(scn)
+            s["big"]["n"] = max(2, scn["big"]["n"] // f)
+            yield s
+        return
     if "arrivals" not in scn:
         if scn.get("samples", 0) > 2:
             s = copy.deepcopy(scn)
